@@ -1,6 +1,6 @@
 SPECIFICATION TraceSpec
 CONSTANTS
-  Readers = {"r1", "r2", "r3", "r4"}
+  Readers = {"r1", "r2", "r3", "r4", "lg"}
   W = 1
   MaxWrites = 100000000
   MaxReads = 100000000
